@@ -86,10 +86,19 @@ TDeser == IsEvent("blsdeser") /\ LET e == Rec[l] IN
                  /\ e.cof.ours_mulinv = e.cof.ref_mulinv /\ e.cof.ours_insub = e.cof.ref_insub
                  /\ e.ours_ok = e.cof.ours_insub               \* validated deserialisation accepts exactly the subgroup
            /\ UNCHANGED tab
+\* curve points given by coordinates whose y sits on the boundary that decides the sign bit of the compressed
+\* form: both engines must write the same bytes for P and -P, and read back the same point from them
+TPt == IsEvent("blspt") /\ LET e == Rec[l] IN
+         /\ e.ours_ok /\ e.ref_ok /\ e.on_curve
+         /\ e.ours_c = e.ref_c /\ e.ours_u = e.ref_u /\ e.ours_nc = e.ref_nc
+         /\ e.ours_back = e.ref_back /\ e.ours_back = e.ours_u          \* compress then decompress is the identity
+         /\ SWOn(<<e.x, e.y>>, MOne(Pm))
+         /\ UNCHANGED tab
 TForce == l <= Len(Rec) /\ Has(Rec[l], "force") /\ l' = l + 1 /\ UNCHANGED tab
-PNext == TReset \/ TGen \/ TMul \/ TPair \/ TBlsConst \/ TFrob \/ TDeser \/ TForce
+PNext == TReset \/ TGen \/ TMul \/ TPair \/ TBlsConst \/ TFrob \/ TDeser \/ TPt \/ TForce
 PSpec == PInit /\ [][PNext]_pvars
-\* non-degeneracy and bilinearity as state invariants over what has been observed
+\* non-degeneracy and bilinearity as a state invariant over what has been observed (maintained step by step by
+\* Observe; not re-checked in every state because it is quadratic in the table size)
 InvTables == \A t1 \in tab : \A t2 \in tab : t1[1] = t2[1] => ((t1[2] = t2[2]) <=> (t1[3] = t2[3]))
 TraceAccepted ==
   LET d == TLCGet("stats").diameter IN
